@@ -57,7 +57,10 @@ declare_class(
 )
 # a text file opened for writing: the ghost list of chunks passed to write(), in order
 declare_class("TextOut", fields={"g_out": TList(STR)})
-declare_class("AssemblyStats", fields={"cuts": INT, "breaks": INT, "joins": INT, "autosome_prefix": STR})
+# (the two memo dictionaries are only ever assigned an empty dict in code under contract; their value types - nested
+# dictionaries of names and lengths - are not modelled and stand here as INT)
+declare_class("AssemblyStats", fields={"cuts": INT, "breaks": INT, "joins": INT, "autosome_prefix": STR, "input_assembly": TOpt(TRef("Assembly")),
+                                       "per_assembly_stats": TDict(STR, INT), "assembly_scaffold_lengths": TDict(TOpt(STR), INT)})
 declare_class(
     "BuildAssembly",
     bases=["Assembly"],
